@@ -429,3 +429,20 @@ package scan
 //@   entry row noips: [call IPs(rg.ipgen, ctx, r) as (is, e)] when e != nil && ret0 == nil && ret1 == e -> exit
 //@   entry row start: [call IPs(rg.ipgen, ctx, r) as (is, e) ; go (*ipRequestGenerator).GenerateRequests$1{out: bind_o, ips: bind_is2, ctx: bind_c, r: bind_r2}]
 //@                       when e == nil && ret1 == nil && ret0 == o && is2 == is && c == ctx && r2 == r -> exit
+
+// ---------------------------------------------------------------------------------------------
+// C08: engine construction. The engine keeps exactly the generator, scanner and result channel it was given;
+// default 100 workers; the worker option sets exactly the worker count; options are applied in order, then nothing.
+//@ func WithScanWorkerCount$1
+//@   props C08
+//@   modifies s.workerCount
+//@   ensures s.workerCount == workerCount
+//@ func NewScanEngine
+//@   props C08
+//@   observe o
+//@   entry row init:  [] when s.reqgen == reqgen && s.scanner == scanner && s.results == results && s.workerCount == 100 -> loop 0
+//@   loop 0 row apply: [call o(s)] -> continue
+//@   loop 0 row done:  [] when ret == s -> exit
+//@ func NewRateLimitScanner
+//@   props C15
+//@   ensures isptr(ret, rateLimitScanner) && asptr(ret, rateLimitScanner).Scanner == delegate && asptr(ret, rateLimitScanner).limiter == limiter
